@@ -609,7 +609,16 @@ impl GroupConfig {
             Box::new(
                 BufReader::new(stdin())
                     .split(b'\n')
-                    .map(|line| line.unwrap())
+                    // a failure to read the input ends the list; it must not go unnoticed
+                    .map_while(move |line| match line {
+                        Ok(line) => Some(line),
+                        Err(e) => {
+                            if let Some(log) = log {
+                                log.err(format!("Failed to read the list of input paths: {e}"));
+                            }
+                            None
+                        }
+                    })
                     // an empty line is not a path, and it must not stand for the working directory
                     .filter(|line| !line.is_empty())
                     // no file name contains a NUL byte; such a line affects only itself
